@@ -16,7 +16,9 @@ RULE = (
     "every transferred id is present with reference-correct bytes; every requested id absent "
     "afterwards is failed or missing on both sides; ids present beforehand are not re-sent nor "
     "reported; source bytes unchanged. Non-trivial = a fault, a mismatching source under verify or a "
-    "doubly-missing child affected a requested id; distinct = SHA-1 of the case JSON."
+    "doubly-missing child affected a requested id; distinct = SHA-1 of the case JSON. One case in eight is the "
+    "deliberate shape 'a requested directory loses a file on both sides (its .dir is withheld) while the "
+    "injected failures hit objects outside that directory in the same transfer'."
 )
 ASSUMPTIONS = [
     "uploads into a local store complete at os.replace/os.rename/os.link/os.symlink onto the object path",
@@ -93,6 +95,12 @@ def run_case(case, ctx):
             cl.append("verify")
         if both_missing:
             cl.append("missing-both-sides")
+        withheld = {x for x in o.requested if x in o.dir_children and x in new and o.dir_children[x] & both_missing}
+        if withheld:
+            cl.append("withheld-dir")
+            hit = {k for _, k in o.inj.faulted}
+            if any(hit - o.dir_children[x] - {x} for x in withheld):
+                cl.append("withheld-dir+fault-elsewhere")
         return Result(viols, affected, cl, {"faults_injected": len(o.inj.faulted),
                                            "abort_points": int(o.inj.aborted)})
 
